@@ -86,6 +86,33 @@ let model toks : string * ZA.t =
     | Rej -> ("r7=" ^ huh ^ " n=0 a=ok", bound)
     | GoPanic -> ("MODEL-GOPANIC", zero)
     | OutOfFuel -> ("MODEL-FUEL", zero))
+  | [ "range"; call; st; ln; hx ] -> (
+    (* the assembled program puts (st, ln) into the pointer/length registers of the call; gas 100 is enough *)
+    let s = slice hx 0 in
+    let start = n_of_string st and len = n_of_string ln in
+    let bound =
+      limit (alloc_load s N0) (alloc_bound_of s N0)
+        (ZA.add (ZA.add (ZA.of_int 24576) (map_overhead s N0)) (za (declared s N0)))
+    in
+    match psi_m_load true s N0 with
+    | Ok (io, _) ->
+      let acc p = m_has { m_iv = io.io_iv; m_made = N0 } p in
+      let ok off = range_ok_go true acc start off in
+      let seg = n_of_int 4104 in
+      let e =
+        match call with
+        | "halt" -> Printf.sprintf "k=halt olen=%s g=ok a=ok" (sn (halt_out_len true acc start len))
+        | "log" -> "k=halt olen=0 g=ok a=ok"
+        | "mach" -> if ok len then "k=halt olen=0 g=ok a=ok" else "k=panic olen=0 g=ok a=ok"
+        | "export" ->
+          let z = if ZA.lt (za len) (za seg) then len else seg in
+          if ok z then "k=halt olen=0 g=ok a=ok" else "k=panic olen=0 g=ok a=ok"
+        | _ -> "BADCASE"
+      in
+      (e, bound)
+    | Rej -> ("MODEL-REJ", zero)
+    | GoPanic -> ("MODEL-GOPANIC", zero)
+    | OutOfFuel -> ("MODEL-FUEL", zero))
   | [ "refine"; hx; gas ] -> (
     (* the assembled refine program: 8 instructions and one host call (10) = 18 units of gas *)
     if int_of_string gas < 18 then ("k=oog out=- g=ok", zero)
